@@ -122,6 +122,18 @@ def arr_getitem(I, arr, idx, env):
         return SymArr(arr.name + "_slice", arr.ctype, [length] + list(arr.shape[1:]), arr=t, readonly=True)
     if len(idx) == 1 and isinstance(idx[0], SymArr) and idx[0].ctype == "bool" and len(idx[0].shape) == 1:
         return mask_select(I, arr, idx[0])
+    if (len(idx) == 1 and isinstance(idx[0], SymArr) and idx[0].ctype and is_int_ctype(idx[0].ctype) and len(idx[0].shape) == 1
+            and len(arr.shape) == 1 and not (arr.memview and env is not None and I.is_cy(env))):
+        # a[index array]: element q of the result is a[index[q]]; negative indices count from the end; an index
+        # outside [-n, n) raises IndexError
+        ix = idx[0]
+        n, m = zint(arr.shape[0]), zint(ix.shape[0])
+        q = z3.Int("q!take")
+        v = z3.Select(ix.arr, q)
+        if I.ctx.branch(z3.Exists([q], z3.And(q >= 0, q < m, z3.Or(v < -n, v >= n)))):
+            I.throw("IndexError", f"{arr.name}: index array element out of bounds")
+        I.ctx.trusted.add("a[integer index array]: element q is a[index[q]] (negative indices from the end), IndexError when any index is outside [-n, n)")
+        return SymArr(arr.name + "_take", arr.ctype, [ix.shape[0]], arr=z3.Lambda([q], z3.Select(arr.arr, z3.If(v < 0, v + n, v))))
     raise Unsupported(f"array subscript {idx!r}")
 
 
@@ -265,6 +277,12 @@ def arr_attr(I, arr, name):
                 raise Unsupported(f"ndarray.{which} with arguments")
             return _reduce_extreme(I_, arr, which)
         return Native("ndarray." + name, extreme)
+    if name in ("any", "all"):
+        def quant(I_, a, k, every=(name == "all")):
+            if a or k:
+                raise Unsupported(f"ndarray.{'all' if every else 'any'} with arguments")
+            return _all(I_, [arr], {}, every=every)
+        return Native("ndarray." + name, quant)
     if name == "base":
         return None
     if name == "__len__":
@@ -315,6 +333,18 @@ def str_to_buffer(I, s):
 
 
 def arr_binop(I, o, a, b):
+    """1-d integer array + / - integer scalar: element-wise in the dtype of the array (C wrap); a new array"""
+    if o in ("+", "-") and isinstance(a, SymArr) and len(a.shape) == 1 and a.ctype and is_int_ctype(a.ctype) and not isinstance(b, SymArr):
+        sc = I.unC(b)
+        if not isinstance(sc, bool) and (isinstance(sc, int) or (isinstance(sc, z3.ArithRef) and sc.is_int())):
+            sc = zint(sc)
+            lo, hi = int_range(a.ctype)
+            if I.ctx.branch(z3.Or(sc < lo, sc > hi)):
+                raise Unsupported("array operator with a scalar outside the array's dtype (NumPy promotes or raises)")
+            q = z3.Int("q!op")
+            x = z3.Select(a.arr, q)
+            I.ctx.trusted.add("integer array +/- Python integer: element-wise in the array's dtype (two's complement wrap), a new array")
+            return SymArr(a.name + "_op", a.ctype, a.shape, arr=z3.Lambda([q], _wrap_to(a.ctype, x + sc if o == "+" else x - sc)))
     raise Unsupported("array operator " + o)
 
 
@@ -364,6 +394,24 @@ def _reduce_extreme(I, arr, which):
     I.ctx.assume(z3.And(w >= 0, w < n, z3.Select(arr.arr, w) == r))
     I.ctx.trusted.add(f"np.{which}: an element of the array that no element " + ("exceeds" if which == "max" else "is below"))
     return CV(arr.ctype, r) if arr.ctype else r
+
+
+def _all(I_, a, k, every=True):
+    x = a[0]
+    if isinstance(x, bool) or z3.is_bool(x):
+        return x
+    if not (isinstance(x, SymArr) and getattr(x, "pred", None) is not None) or k or len(a) > 1:
+        raise Unsupported("np.all / np.any of this operand")
+    n = zint(x.shape[0])
+    nc = simp(n)
+    if isinstance(nc, int) and nc <= 4096:
+        vals = [simp(x.pred(z3.IntVal(i))) for i in range(nc)]
+        if all(isinstance(v, bool) for v in vals):
+            return all(vals) if every else any(vals)
+    q = z3.Int("q!all")
+    if every:
+        return z3.ForAll([q], z3.Implies(z3.And(q >= 0, q < n), x.pred(q)))
+    return z3.Exists([q], z3.And(q >= 0, q < n, x.pred(q)))
 
 
 def _wrap_to(ctype, x):
@@ -528,22 +576,6 @@ def make_module(I):
     ns["min"] = Native("np.min", _min)
     ns["amin"] = ns["min"]
 
-    def _all(I_, a, k, every=True):
-        x = a[0]
-        if isinstance(x, bool) or z3.is_bool(x):
-            return x
-        if not (isinstance(x, SymArr) and getattr(x, "pred", None) is not None) or k or len(a) > 1:
-            raise Unsupported("np.all / np.any of this operand")
-        n = zint(x.shape[0])
-        nc = simp(n)
-        if isinstance(nc, int) and nc <= 4096:
-            vals = [simp(x.pred(z3.IntVal(i))) for i in range(nc)]
-            if all(isinstance(v, bool) for v in vals):
-                return all(vals) if every else any(vals)
-        q = z3.Int("q!all")
-        if every:
-            return z3.ForAll([q], z3.Implies(z3.And(q >= 0, q < n), x.pred(q)))
-        return z3.Exists([q], z3.And(q >= 0, q < n, x.pred(q)))
     def _abs(I_, a, k):
         x = a[0]
         if not (isinstance(x, SymArr) and len(x.shape) == 1 and x.ctype and is_int_ctype(x.ctype)) or k or len(a) > 1:
@@ -586,4 +618,48 @@ def make_module(I):
         t = z3.Lambda([q], z3.If(q < i, z3.Select(x.arr, q), z3.Select(x.arr, q + 1)))
         return SymArr(x.name + "_del", x.ctype, [simp(n - 1)] + list(x.shape[1:]), arr=t)
     ns["delete"] = Native("np.delete", _delete)
+
+    def _where(I_, a, k):
+        x = a[0]
+        if len(a) != 1 or k or not (isinstance(x, SymArr) and getattr(x, "pred", None) is not None and len(x.shape) == 1):
+            raise Unsupported("np.where of these operands")
+        # np.where(condition) -> (indices,): the positions where the condition holds, ascending
+        n = zint(x.shape[0])
+        m = I_.ctx.fresh_int("nwhere")
+        w = SymArr(I_.ctx.fresh_name("where"), "int64", [m], readonly=True)
+        q = z3.Int("q!where")
+        at = z3.Select(w.arr, q)
+        I_.ctx.assume(z3.And(m >= 0, m <= n))
+        I_.ctx.assume((m > 0) == z3.Exists([q], z3.And(q >= 0, q < n, x.pred(q))))
+        I_.ctx.assume(z3.ForAll([q], z3.Implies(z3.And(q >= 0, q < m), z3.And(at >= 0, at < n, x.pred(at)))))
+        I_.ctx.assume(z3.ForAll([q], z3.Implies(z3.And(q >= 0, q < m - 1), at < z3.Select(w.arr, q + 1))))
+        I_.ctx.assume(z3.Implies(m > 0, z3.ForAll([q], z3.Implies(z3.And(q >= 0, q < z3.Select(w.arr, 0)), z3.Not(x.pred(q))))))
+        I_.ctx.trusted.add("np.where(condition): a 1-tuple with the ascending positions at which the condition holds (none iff it holds nowhere; the first is the least)")
+        return (w,)
+    ns["where"] = Native("np.where", _where)
+    ns["nonzero"] = ns["where"]
+
+    def _searchsorted(I_, a, k):
+        arr, v = a[0], a[1]
+        side = k.get("side", a[2] if len(a) > 2 else "left")
+        if not (isinstance(arr, SymArr) and isinstance(v, SymArr) and len(arr.shape) == 1 and len(v.shape) == 1 and side in ("left", "right")
+                and arr.ctype and v.ctype and is_int_ctype(arr.ctype) and is_int_ctype(v.ctype)) or k.get("sorter") is not None:
+            raise Unsupported("np.searchsorted of these operands")
+        n, m = zint(arr.shape[0]), zint(v.shape[0])
+        q, j = z3.Int("q!ss"), z3.Int("j!ss")
+        # the result is only specified for an ascending array: a precondition of the library function, checked here
+        node = getattr(I_, "cur_node", None)
+        is_sorted = z3.ForAll([j], z3.Implies(z3.And(j >= 0, j < n - 1), z3.Select(arr.arr, j) <= z3.Select(arr.arr, j + 1)))
+        I_.ctx.oblige(I_.obname(f"searchsorted_operand_is_sorted[{arr.name}]", node), is_sorted, "library-precondition",
+                      {"why": "np.searchsorted on an array that is not ascending returns an unspecified position"})
+        I_.ctx.assume(is_sorted)
+        r = SymArr(I_.ctx.fresh_name("insertion"), "int64", [v.shape[0]])
+        at, x = z3.Select(r.arr, q), z3.Select(v.arr, q)
+        e = z3.Select(arr.arr, j)
+        below, above = (e <= x, e > x) if side == "right" else (e < x, e >= x)
+        I_.ctx.assume(z3.ForAll([q], z3.Implies(z3.And(q >= 0, q < m), z3.And(at >= 0, at <= n))))
+        I_.ctx.assume(z3.ForAll([q, j], z3.Implies(z3.And(q >= 0, q < m, j >= 0, j < n), z3.If(j < at, below, above))))
+        I_.ctx.trusted.add("np.searchsorted(a, v, side): for ascending a, position p[q] in [0, len(a)] with a[j] <= v[q] (side='right'; < for 'left') exactly for j < p[q]")
+        return r
+    ns["searchsorted"] = Native("np.searchsorted", _searchsorted)
     return Module("numpy", ns)
